@@ -83,8 +83,55 @@ func r142(c *Ctx, r *R) {
 	// snapshot restore decodes each entry into a fresh record too
 	un := c.fn(r, "state/dsstate", "State.Unmarshal")
 	if un != nil {
+		// the decode may live in a helper of the package (one record per
+		// call is fresh; a record handed in by Unmarshal must be allocated
+		// in the loop that calls the helper)
+		type decSite struct {
+			ci    ssa.CallInstruction
+			fresh bool
+		}
+		var sites []decSite
 		for _, ci := range findCalls(un, false, "codec.Decoder).Decode") {
-			r.Check(freshPerIteration(ci, 1), "unmarshal:fresh-entry", ci.Pos(), "each snapshot entry is decoded into a fresh record", "State.Unmarshal decodes every entry into the same record: the codec reuses the value's byte slice, so with a datastore that keeps references every key ends up holding the last entry's bytes")
+			sites = append(sites, decSite{ci, freshPerIteration(ci, 1)})
+		}
+		for _, hc := range callsIn(un) {
+			h := hc.Common().StaticCallee()
+			if h == nil || h.Blocks == nil || h.Pkg != un.Pkg {
+				continue
+			}
+			for _, ci := range findCalls(h, false, "codec.Decoder).Decode") {
+				a := ci.Common().Args[1]
+				if mi, ok := a.(*ssa.MakeInterface); ok {
+					a = mi.X
+				}
+				fresh := false
+				switch x := a.(type) {
+				case *ssa.Alloc:
+					fresh = x.Parent() == h // a record of the call's own
+				case *ssa.Parameter:
+					for i, q := range h.Params {
+						if q == x && i < len(hc.Common().Args) {
+							if al, ok := stripLocal(hc.Common().Args[i]).(*ssa.Alloc); ok {
+								fresh = loopHeaderOf(hc.Block()) == nil || blockReaches(al.Block(), al.Block())
+								// handed in from outside a loop and used by a call inside one
+								for _, other := range callsIn(un) {
+									if other != hc && other.Common().StaticCallee() == h && loopHeaderOf(other.Block()) != nil && i < len(other.Common().Args) && stripLocal(other.Common().Args[i]) == ssa.Value(al) && !blockReaches(al.Block(), al.Block()) {
+										fresh = false
+									}
+								}
+							}
+						}
+					}
+				}
+				sites = append(sites, decSite{hc, fresh})
+			}
+		}
+		if len(sites) == 0 {
+			r.Und("unmarshal:fresh-entry", un.Pos(), "State.Unmarshal: no decode call found")
+		}
+		for _, ds := range sites {
+			ci := ds.ci
+			r.Check(ds.fresh, "unmarshal:fresh-entry", ci.Pos(), "each snapshot entry is decoded into a fresh record", "State.Unmarshal decodes every entry into the same record: the codec reuses the value's byte slice, so with a datastore that keeps references every key ends up holding the last entry's bytes")
 		}
 	}
 }
